@@ -101,7 +101,7 @@ def task(W, payload):
         # two mixing-carrying stratifications and an infection flow: the renaming below REVERSES the alphabetical order of the stratification names
         opts.mixing_pair_bias = 0.6; opts.force_infection = True
     if variant == "perm":
-        opts.inf_adjust_bias = 0.9; opts.force_infection = True     # several infectious compartments with their own infectiousness adjustments, listed in another order
+        opts.inf_adjust_bias = 0.9; opts.force_infection = True; opts.two_infectious = True     # several infectious compartments with their own infectiousness adjustments, listed in another order
         opts.inexact_split_bias = 0.9 if (payload["index"] // len(VARIANTS)) % 2 == 0 else 0.4
         if (payload["index"] // len(VARIANTS)) % 2 == 0: opts.force_strat = True; opts.split_bias = 0.95; opts.allow_param_split = False; opts.inexact_split_bias = 1.0    # splits that sum to one only within the API's tolerance: reordering the strata must still only permute the results
     if variant == "perm" and (payload["index"] // len(VARIANTS)) % 2 == 1:
@@ -119,6 +119,7 @@ def task(W, payload):
     factor = 1.0
     if variant == "perm":
         names = ops1[0]["comps"][:]; r.shuffle(names); ops1[0]["comps"] = names
+        ops1[0]["inf"] = list(reversed(ops1[0]["inf"]))      # the infectious compartments listed in the other order
         # shuffle maximal runs of flow ops
         i = 0
         while i < len(ops1):
